@@ -320,6 +320,23 @@ func (s *Sess) msgs(mb int, ms []storage.Message) string {
 	return strings.Join(xs, ";")
 }
 
+// Msgs renders a list of messages of pool mailbox mb (handles, metadata, content digests).
+func (s *Sess) Msgs(mb int, ms []storage.Message) string { return s.msgs(mb, ms) }
+
+// Short is a compact form of a (possibly very long) listing: number of messages and FNV-1a of the text.
+func Short(listing string) string {
+	n := 0
+	if listing != "-" && listing != "" {
+		n = strings.Count(listing, ";") + 1
+	}
+	h := uint32(2166136261)
+	for i := 0; i < len(listing); i++ {
+		h ^= uint32(listing[i])
+		h *= 16777619
+	}
+	return fmt.Sprintf("%d:%08x", n, h)
+}
+
 // Listing is GetMessages of one pool mailbox with every message's content read.
 func (s *Sess) Listing(mb int) string {
 	ms, err := s.Store.GetMessages(Pool()[mb].Name)
